@@ -307,6 +307,11 @@ func c02Cores(rng *rand.Rand) []*Scenario {
 	// synchronous link (a write returns only when consumed, like net.Pipe) with several messages per block
 	mk(3, 0, dd, "B", "sync", "all")
 	mk(2, 2, map[string]int{"dedup": 2, "once=": 1}, "A", "sync", "rand")
+	// transports with a transmit buffer and Flush (what the radio modems give the session)
+	mk(2, 1, dd, "A", "free", "all")
+	out[len(out)-1].Flushable = true
+	mk(3, 0, dd, "B", "free", "rand")
+	out[len(out)-1].Flushable = true
 	// the real directory mailbox on both sides (P2P routing needs sole recipients)
 	for ci, c := range [][2]int{{1, 1}, {2, 0}, {3, 0}} {
 		pol := dd
@@ -375,6 +380,10 @@ func MainC02(args []string) int {
 		for _, side := range []string{"A", "B"} {
 			for i := 1; i <= len(core.Msgs[peerOf(side)]); i++ {
 				items = append(items, item{core, []*Fault{{Kind: "storefail", Dir: side, At: i}}})
+				if core.Handler == "dir" {
+					// a real file-system fault in the directory mailbox (the message's file name is blocked by a directory)
+					items = append(items, item{core, []*Fault{{Kind: "fsfail", Dir: side, At: i}}})
+				}
 			}
 		}
 		// sequences: (cut, cut, clean), (storefail, cut, clean)
